@@ -216,8 +216,19 @@ def coerce_value(m: SymMap, v):
     raise Unsupported(f'store into a map with values of type {m.vtyp}')
 
 
+def as_symset(v):
+    """a set-like symbolic value as a SymSet (a row of a ufmaps.SymRelMap: its content now)"""
+    if type(v).__name__ == 'SymRow':
+        mem, key = v.rel.member, v.key
+        return SymSet(lambda u: mem(key, u), v.kname)
+    return v
+
+
 def set_map_has(P, m, k, u):
     """spec: k in m and u in m[k], total"""
+    if type(m).__name__ == 'SymRelMap':   # dict[Key[K], set[Key[K]]] is a ufmaps relation map
+        t = containers._kterm(m, k)
+        return simp(z3.And(_b(m.present(t)), _b(m.member(t, containers._kterm(m, u)))))
     if not (isinstance(m, SymMap) and m.vtyp[0] == 'set'):
         raise Unsupported(f'set_map_has on {m!r}')
     t = containers._kterm(m, k)
@@ -233,13 +244,29 @@ def map_val(P, m, k):
 
 
 def set_len(P, s: SymSet):
-    """len(s): n >= 0 with n == 0 <=> s is empty (witness constant for the non-empty case)"""
+    """len(s) = n >= 0 with  n == 0 <=> s is empty  and  n >= 2 <=> s has two distinct members
+    (witness constants for the existential directions; the cardinality of a finite set satisfies all of it)"""
     n = z3.Int(P.fresh_name('len#set'))
-    w = z3.Const(P.fresh_name('len#wit'), key_sort(s.kname))
-    x = z3.Const('k!len', key_sort(s.kname))
-    P.assume(z3.And(n >= 0, _b(s.member(w)) == (n > 0),
-                    z3.ForAll([x], z3.Implies(_b(s.member(x)), n > 0))), fact=True)
+    ks = key_sort(s.kname)
+    w = z3.Const(P.fresh_name('len#wit'), ks)
+    w1 = z3.Const(P.fresh_name('len#wit1'), ks)
+    w2 = z3.Const(P.fresh_name('len#wit2'), ks)
+    x = z3.Const('k!len', ks)
+    y = z3.Const('k!len2', ks)
+    mem = lambda t: _b(s.member(t))
+    P.assume(z3.And(n >= 0, mem(w) == (n > 0),
+                    z3.ForAll([x], z3.Implies(mem(x), n > 0)),
+                    z3.And(mem(w1), mem(w2), w1 != w2) == (n >= 2),
+                    z3.ForAll([x, y], z3.Implies(z3.And(mem(x), mem(y), x != y), n >= 2))), fact=True)
     return n
+
+
+def map_get(P, m: SymMap, args):
+    """code: m.get(k[, default]) on a map with key / set values: forks on the presence of k (exact)"""
+    t = containers._kterm(m, args[0])
+    if P.branch(simp(_b(m.present(t))), 'get-present'):
+        return wrap_value(m, m.value(t))
+    return args[1] if len(args) == 2 else None
 
 
 def truthy(P, c):
